@@ -206,12 +206,14 @@ class Ctx:
                 if e.get("status") == "open" and _match(e, r):
                     hit = e
                     break
-            path = self._write_replay(r)
+            # replay files: one per listed finding, and one for each of the first 200 new groups (a badly broken tree can
+            # produce tens of thousands of groups; every reported VIOLATION line still names an existing file)
             if hit is not None:
-                k = known_hit.setdefault(hit["id"], {"entry": hit, "count": 0, "replay": path})
-                k["count"] += g["count"]
+                if hit["id"] not in known_hit:
+                    known_hit[hit["id"]] = {"entry": hit, "count": 0, "replay": self._write_replay(r)}
+                known_hit[hit["id"]]["count"] += g["count"]
             else:
-                new.append((r, g["count"], path))
+                new.append((r, g["count"], self._write_replay(r) if len(new) < 200 else None))
         for fid, k in known_hit.items():
             print(f"KNOWN-FINDING: property={self.pid} {fid}: {k['entry']['what']} "
                   f"(matched {k['count']} executions; e.g. replay={k['replay']})")
